@@ -500,6 +500,83 @@ def extract_flags():
     return flags
 
 
+
+# ---------------------------------------------------------------------------
+# state shared between instances: a class-level (or attrs `default=`) mutable container that methods
+# mutate in place through `self.<name>` is ONE object for every instance of the class.  Every model here
+# gives each object its own state, so the list must be empty (obligation WV.Props.Common).
+
+_MUTATORS = {"append", "extend", "insert", "pop", "popleft", "appendleft", "add", "remove", "discard", "clear",
+             "update", "setdefault", "sort", "reverse", "popitem", "extendleft", "rotate"}
+
+
+def _is_mutable_literal(v):
+    if isinstance(v, (ast.List, ast.Dict, ast.Set, ast.ListComp, ast.DictComp, ast.SetComp)):
+        return True
+    if isinstance(v, ast.Call):
+        nm = getattr(v.func, "id", getattr(v.func, "attr", ""))
+        if nm in ("list", "dict", "set", "deque", "defaultdict", "OrderedDict", "bytearray", "Counter"):
+            return True
+        if nm in ("attrib", "ib", "field", "attr_ib"):
+            return any(k.arg == "default" and _is_mutable_literal(k.value) for k in v.keywords)
+    return False
+
+
+def extract_shared_state():
+    import glob
+    root = os.path.dirname(inspect.getsourcefile(__import__("wormhole")))
+    out = []
+    for f in sorted(glob.glob(os.path.join(root, "**", "*.py"), recursive=True)):
+        rel = os.path.relpath(f, root)
+        if rel.startswith("test" + os.sep):
+            continue
+        try:
+            tree = ast.parse(open(f, encoding="utf-8").read())
+        except SyntaxError:
+            continue
+        for cls in ast.walk(tree):
+            if not isinstance(cls, ast.ClassDef):
+                continue
+            cands = []
+            for b in cls.body:
+                if isinstance(b, ast.Assign) and len(b.targets) == 1 and isinstance(b.targets[0], ast.Name):
+                    name, val = b.targets[0].id, b.value
+                elif isinstance(b, ast.AnnAssign) and isinstance(b.target, ast.Name) and b.value is not None:
+                    name, val = b.target.id, b.value
+                else:
+                    continue
+                if _is_mutable_literal(val):
+                    cands.append(name)
+            if not cands:
+                continue
+            mutated = set()
+            for n in ast.walk(cls):
+                tgt = None
+                if isinstance(n, ast.Call) and isinstance(n.func, ast.Attribute) and n.func.attr in _MUTATORS:
+                    tgt = n.func.value
+                elif isinstance(n, (ast.Assign, ast.AugAssign, ast.Delete)):
+                    ts = n.targets if isinstance(n, (ast.Assign, ast.Delete)) else [n.target]
+                    for t in ts:
+                        if isinstance(t, ast.Subscript):
+                            tgt = t.value
+                            if isinstance(tgt, ast.Attribute) and isinstance(tgt.value, ast.Name) and tgt.value.id == "self":
+                                mutated.add(tgt.attr)
+                    continue
+                if isinstance(tgt, ast.Attribute) and isinstance(tgt.value, ast.Name) and tgt.value.id == "self":
+                    mutated.add(tgt.attr)
+            for name in cands:
+                if name in mutated or name.lstrip("_") in {m.lstrip("_") for m in mutated}:
+                    out.append("%s:%s.%s" % (rel.replace(os.sep, "/"), cls.name, name))
+    return sorted(out)
+
+
+def lean_shared_state(items):
+    return ("namespace WV.Gen.Shared\n"
+            "/-- `file:Class.attr` for every mutable container created once at class level (or as an attrs default)\n"
+            "    and mutated in place through `self` -/\n"
+            "def sharedMutableState : List String := [%s]\n"
+            "end WV.Gen.Shared\n" % ", ".join(lean_str(x) for x in items))
+
 def lean_flags(flags):
     L = ["namespace WV.Gen.Flags"]
     for k in sorted(flags):
@@ -867,6 +944,8 @@ def main():
     fl = extract_flags()
     if write_if_changed(os.path.join(GEN, "Flags.lean"), hdr + lean_flags(fl)):
         changed.append("Flags")
+    if write_if_changed(os.path.join(GEN, "Shared.lean"), hdr + lean_shared_state(extract_shared_state())):
+        changed.append("Shared")
     if write_if_changed(os.path.join(GEN, "Recv.lean"), hdr + extract_recv()):
         changed.append("Recv")
     hg = extract_hint_guards()
